@@ -20,7 +20,7 @@ struct bmsg { uint8_t qos; uint16_t pid; uint8_t tag, t1, p1; bool has_exp; uint
 
 struct X {
   W w;
-  bmsg m[VK_MSGS]; int nm = 0; int nreconn = 0;
+  bmsg m[VK_MSGS]; int nm = 0; int nreconn = 0; int own = -1;
   int rel_to_client[VK_MSGS]; int comp_from_client[VK_MSGS];
 
   void send_publish(bmsg& b, bool dup) {
@@ -31,7 +31,7 @@ struct X {
   void deliver(int chunk) { if (chunk == 1 && w.out_avail() > 1) { w.feed(1); vk::drain(); } w.feed_all(); vk::drain(); }
   void ev_new_publish() {
     if (nm >= VK_MSGS || !w.connected()) vk_assume(0);
-    bmsg& b = m[nm]; b = bmsg{}; b.qos = (uint8_t)vk_choose(3); b.pid = b.qos ? (uint16_t)(20 + nm) : 0; b.tag = (uint8_t)('A' + nm);
+    bmsg& b = m[nm]; b = bmsg{}; b.qos = (uint8_t)vk_choose(3); b.pid = b.qos ? (uint16_t)(1 + nm) : 0; /* same numbers as the client allocates for its own requests: independent number spaces */ b.tag = (uint8_t)('A' + nm);
     b.t1 = vk_sym_u8(); b.p1 = vk_sym_u8(); b.has_exp = vk_choose(2); b.exp = b.has_exp ? vk_sym_u32() : 0;
     rel_to_client[nm] = 0; comp_from_client[nm] = 0; nm++;
     send_publish(b, false); deliver(vk_choose(2)); vk_reach(b.qos == 2 ? "qos2-sent" : b.qos == 1 ? "qos1-sent" : "qos0-sent");
@@ -56,6 +56,8 @@ struct X {
       }
     }
   }
+  // the application sends a request of its own; it is allocated packet identifier 1, the same number the broker uses
+  void ev_own_publish() { if (own >= 0) vk_assume(0); own = w.publish<qos_e::at_least_once>("o", "O"); vk::drain(); vk_reach("own-publish"); }
   void ev_write_done() {
     auto* s = vk::pending_write(); if (!s) vk_assume(0);
     int before = w.npk; w.finish_write(s, s->wdata.size(), {}); vk::drain(); on_client_packets(before);
@@ -115,11 +117,12 @@ extern "C" void h_recv(void) {
   for (int step = 0; step < VK_STEPS; step++) {
     while (w.receive_pending == 0 && w.nmsgs < MAXMSG - 1) w.receive();
     vk::drain();
-    uint32_t ev = vk_choose(4);
+    uint32_t ev = vk_choose(5);
     switch (ev) {
       case 0: x->ev_new_publish(); break;
       case 1: x->ev_pubrel(); break;
       case 2: x->ev_write_done(); break;
+      case 3: x->ev_own_publish(); break;
       default: x->ev_reconnect(); break;
     }
     while (w.receive_pending == 0 && w.nmsgs < MAXMSG - 1) { w.receive(); vk::drain(); }
